@@ -871,64 +871,151 @@ def man_interp(kind, a, b, lam):
     return v if kind == "v3" else _norm(v)
 
 
+REFPOS = [(1.0, 0.0, 0.0), (0.0, 1.5, 0.0), (0.0, 0.0, 2.0), (-1.0, -1.0, 0.5)]
+NATOMS = {"s": 1, "p": 1, "v3": 2, "uv": 2, "q": 4, "vl": 4}
+DIM = {"s": 1, "p": 1, "v3": 3, "uv": 3, "q": 4, "vl": 4}
+
+
+def gen_dist2(v, a, b):
+    kind = v["kind"]
+    if kind == "s":
+        return (a[0] - b[0]) ** 2
+    if kind == "p":
+        return float(shortest(Fr(a[0]) - Fr(b[0]), Fr(v["P"]))) ** 2
+    if kind in ("v3", "vl"):
+        return sum((x - y) ** 2 for x, y in zip(a, b))
+    return man_dist2(kind, a, b)
+
+
+def gen_interp(v, a, b, lam):
+    kind = v["kind"]
+    c = [(1.0 - lam) * x + lam * y for x, y in zip(a, b)]
+    if kind in ("uv", "q"):
+        return _norm(c)
+    return c
+
+
+def gen_same(v, a, b):
+    if v["kind"] == "p":
+        return abs(float(shortest(Fr(a[0]) - Fr(b[0]), Fr(v["P"])))) <= 1e-9 * max(1.0, abs(a[0]))
+    return all(close(x, y, 1e-9) or abs(x - y) < 1e-12 for x, y in zip(a, b))
+
+
+def gen_var_block(i, v, a0):
+    """colvar block of variable i whose first atom is a0 (1-based)"""
+    kind = v["kind"]
+    fmtv = lambda q: "(" + ", ".join("%r" % x for x in q) + ")"
+    L = ["colvar {", "  name v%d" % i, "  width %r" % v["w"]]
+    if kind in ("s", "p"):
+        L += ["  distanceZ {", "    main { atomNumbers %d }" % a0, "    ref { dummyAtom (0,0,0) }", "    axis (0,0,1)"]
+        if kind == "p":
+            L += ["    period %r" % v["P"], "    wrapAround %r" % v["wc"]]
+        L += ["  }"]
+    elif kind in ("v3", "uv"):
+        L += ["  %s {" % ("distanceVec" if kind == "v3" else "distanceDir"), "    group1 { atomNumbers %d }" % a0, "    group2 { atomNumbers %d }" % (a0 + 1), "  }"]
+    elif kind == "q":
+        L += ["  orientation {", "    atoms { atomNumbers %d %d %d %d }" % (a0, a0 + 1, a0 + 2, a0 + 3), "    refPositions " + " ".join(fmtv(q) for q in REFPOS), "  }"]
+    else:
+        L += ["  distancePairs {", "    group1 { atomNumbers %d %d }" % (a0, a0 + 1), "    group2 { atomNumbers %d %d }" % (a0 + 2, a0 + 3), "  }"]
+    L += ["}"]
+    return L
+
+
+def gen_positions(r, v):
+    kind = v["kind"]
+    rv3 = lambda lo=-2, hi=2: [V.dyadic(r, lo, hi, bits=3) for _ in range(3)]
+    if kind in ("s", "p"):
+        z = r.choice([v["c0"][0], v["c1"][0]]) + V.dyadic(r, -2, 2, bits=3)
+        if kind == "p" and r.random() < 0.3:
+            z += r.randint(-2, 2) * v["P"]
+        return [[0.0, 0.0, z]]
+    if kind in ("v3", "uv"):
+        p1 = rv3()
+        while True:
+            dv = rv3()
+            if sum(x * x for x in dv) > 0.25:
+                break
+        return [p1, [x + y for x, y in zip(p1, dv)]]
+    if kind == "q":
+        pos = [[q[j] + V.dyadic(r, -0.5, 0.5, bits=3) for j in range(3)] for q in REFPOS]
+        if r.random() < 0.7:
+            a, b_ = r.choice([(0, 1), (1, 2), (0, 2)])
+            for q in pos:
+                q[a], q[b_] = -q[b_], q[a]
+        return pos
+    return [rv3(), [x + 3.0 for x in rv3()], [x - 3.0 for x in rv3()], rv3(-5, -3)]
+
+
 def manifold_part(run, r, runner, n):
-    """harmonic restraint on a 3-vector (distanceVec), a unit vector (distanceDir) and a quaternion (orientation):
-    energy = k/(2 w^2) (geodesic distance)^2 at the reported value; fixed, continuously moving and staged centres =
-    (normalised) linear interpolation, a function of the step alone under run boundaries and restarts"""
+    """harmonic restraint with fixed / continuously moving / staged centres on variables of every value type (scalar,
+    periodic scalar, 3-vector distanceVec, unit vector distanceDir, quaternion orientation, vector distancePairs), one or two
+    variables per restraint, run boundaries and restarts, accumulated work.  Tie: the generic machine of coq/C06/RestraintGen.v
+    (extracted) run on the values the implementation reports, compared after every event (energy, forces, centres, stage,
+    first_step, work).  Oracle: k/(2 w^2) x geodesic distance^2, centre = (normalised, wrapped) interpolation at lambda(t)."""
     cases = []
-    refpos = [(1.0, 0.0, 0.0), (0.0, 1.5, 0.0), (0.0, 0.0, 2.0), (-1.0, -1.0, 0.5)]
     for k in range(n):
-        kind = r.choice(["v3", "uv", "uv", "q", "q"])
-        dim = 4 if kind == "q" else 3
-        rv = lambda: [V.dyadic(r, -2, 2, bits=3) for _ in range(dim)]
-        def nonzero():
-            while True:
-                v = rv()
-                if sum(x * x for x in v) > 0.25:
-                    return v
-        c0, c1 = nonzero(), nonzero()
-        if kind != "v3":
-            # keep the interpolation away from antipodal end points
-            while sum(x * y for x, y in zip(_norm(c0), _norm(c1))) < -0.5:
-                c1 = nonzero()
+        nv = r.choice([1, 1, 2])
+        vars_ = []
+        for i in range(nv):
+            kind = r.choice(["v3", "uv", "uv", "q", "q", "s", "p", "vl"])
+            v = {"kind": kind, "w": r.choice([0.5, 1.0, 2.0])}
+            dim = DIM[kind]
+            def nonzero():
+                while True:
+                    q = [V.dyadic(r, -2, 2, bits=3) for _ in range(dim)]
+                    if sum(x * x for x in q) > 0.25:
+                        return q
+            c0, c1 = nonzero(), nonzero()
+            if kind in ("uv", "q"):
+                while sum(x * y for x, y in zip(_norm(c0), _norm(c1))) < -0.5:
+                    c1 = nonzero()
+            if kind == "p":
+                v["P"] = r.choice([4.0, 8.0])
+                v["wc"] = r.choice([0.0, 1.0, -2.5])
+                c1 = [c0[0] + r.choice([-1, 1]) * V.dyadic(r, 0.5, 6, bits=1)]
+            if kind == "vl":
+                c0 = [abs(x) + 3.0 for x in c0]
+                c1 = [abs(x) + 3.0 for x in c1]
+            v["c0"], v["c1"] = c0, c1
+            vars_.append(v)
         mode = r.choice(["none", "cc", "cc", "cs"])
-        c = {"kind": kind, "c0": c0, "c1": c1, "mode": mode, "k": r.choice([0.5, 1.0, 2.0, 4.0]), "w": r.choice([0.5, 1.0, 2.0]),
-             "N": r.choice([1, 2, 3, 4]), "nstages": r.choice([1, 2, 3]), "it0": r.choice([0, 0, 7]), "fmt": r.choice(["text", "binary"])}
+        c = {"vars": vars_, "mode": mode, "k": r.choice([0.5, 1.0, 2.0, 4.0]),
+             "N": r.choice([1, 2, 3, 4]), "nstages": r.choice([1, 2, 3]), "it0": r.choice([0, 0, 7]), "fmt": r.choice(["text", "binary"]),
+             "accw": mode == "cc" and r.random() < 0.7 and all(v["kind"] in ("s", "p", "v3", "vl") for v in vars_)}
         nsteps = {"none": r.randint(2, 4), "cc": c["N"] + r.randint(1, 3), "cs": (c["nstages"] + 1) * c["N"] + 2}[mode]
         ev = []
         seg = r.choice(["none", "B", "R", "BR"])
         for s_ in range(nsteps + 1):
-            if kind == "q":
-                # rigid rotation of the reference positions (+ small deformation): any 4 points
-                pos = [[p[j] + V.dyadic(r, -0.5, 0.5, bits=3) for j in range(3)] for p in refpos]
-                if r.random() < 0.7:
-                    a, b_ = r.choice([(0, 1), (1, 2), (0, 2)])
-                    for p in pos:
-                        p[a], p[b_] = -p[b_], p[a]      # quarter turn about the third axis
-            else:
-                p1 = [V.dyadic(r, -2, 2, bits=3) for _ in range(3)]
-                dv = nonzero()
-                pos = [p1, [x + y for x, y in zip(p1, dv)]]
+            pos = []
+            for v in vars_:
+                pos += gen_positions(r, v)
             ev.append(("S", pos))
             if seg != "none" and 0 < s_ < nsteps and r.random() < 0.4:
                 ev.append((r.choice(list(seg)), pos))
         c["events"] = ev
         cases.append(c)
+    # accumulated work of a centre moving on the unit sphere (recorded finding work:centers:unit-vector): centre (1,0,0) -> (0,1,0)
+    # in 4 steps, the variable held at (0,0,1): no work is done (the energy stays k/(2w^2) (pi/2)^2), yet W changes at every step
+    wv = {"kind": "uv", "w": 1.0, "c0": [1.0, 0.0, 0.0], "c1": [0.0, 1.0, 0.0]}
+    cases.append({"vars": [wv], "mode": "cc", "k": 1.0, "N": 4, "nstages": 1, "it0": 0, "fmt": "text", "accw": True, "uvwork": True,
+                  "events": [("S", [[0.0, 0.0, 0.0], [0.0, 0.0, 1.0]])] * 6})
     scn = []
+    fmtv = lambda q: ("%r" % q[0]) if len(q) == 1 else "(" + ", ".join("%r" % x for x in q) + ")"
     for k, c in enumerate(cases):
-        kind = c["kind"]
-        nat = 4 if kind == "q" else 2
-        fmtv = lambda v: "(" + ", ".join("%r" % x for x in v) + ")"
-        conf = ["config EOF", "colvar {", "  name v0", "  width %r" % c["w"]]
-        if kind == "q":
-            conf += ["  orientation {", "    atoms { atomNumbers 1 2 3 4 }", "    refPositions " + " ".join(fmtv(p) for p in refpos), "  }"]
-        else:
-            conf += ["  %s {" % ("distanceVec" if kind == "v3" else "distanceDir"), "    group1 { atomNumbers 1 }", "    group2 { atomNumbers 2 }", "  }"]
-        conf += ["}", "harmonic {", "  name r", "  colvars v0", "  forceConstant %r" % c["k"], "  centers " + fmtv(c["c0"])]
+        conf = ["config EOF"]
+        a0 = 1
+        for i, v in enumerate(c["vars"]):
+            conf += gen_var_block(i, v, a0)
+            a0 += NATOMS[v["kind"]]
+        nat = a0 - 1
+        conf += ["harmonic {", "  name r", "  colvars " + " ".join("v%d" % i for i in range(len(c["vars"]))), "  forceConstant %r" % c["k"],
+                 "  centers " + " ".join(fmtv(v["c0"]) for v in c["vars"])]
         if c["mode"] != "none":
-            conf += ["  targetCenters " + fmtv(c["c1"]), "  targetNumSteps %d" % c["N"]]
+            conf += ["  targetCenters " + " ".join(fmtv(v["c1"]) for v in c["vars"]), "  targetNumSteps %d" % c["N"]]
         if c["mode"] == "cs":
             conf += ["  targetNumStages %d" % c["nstages"]]
+        if c["accw"]:
+            conf += ["  outputAccumulatedWork on"]
         conf += ["}", "EOF"]
         L = ["echo CASE %d" % k, "natoms %d" % nat, "new"]
         if c["it0"]:
@@ -936,8 +1023,8 @@ def manifold_part(run, r, runner, n):
         L += ["capture"] + conf + ["show atomf 0 cv 0 energy 0 bias 0"]
         nsave = 0
         for typ, pos in c["events"]:
-            for i, p in enumerate(pos):
-                L.append("pos %d %s %s %s" % (i + 1, hx(p[0]), hx(p[1]), hx(p[2])))
+            for i, q in enumerate(pos):
+                L.append("pos %d %s %s %s" % (i + 1, hx(q[0]), hx(q[1]), hx(q[2])))
             if typ == "B":
                 L.append("runboundary")
             elif typ == "R":
@@ -951,60 +1038,125 @@ def manifold_part(run, r, runner, n):
     rc2, iout, e2 = V.run_lines(runner.unit, scn, cwd=runner.scratch, timeout=900)
     impl = parse_impl(iout)
     ml, where = [], []
+
+    def vecs(o, key):
+        x = o[key]
+        return [q if isinstance(q, list) else [q] for q in x]
+
     for k, c in enumerate(cases):
         cs = impl.get(k)
-        kind = c["kind"]
-        run.dist("manifold:%s:%s" % (kind, c["mode"]))
+        for v in c["vars"]:
+            run.dist("anytype:%s:%s" % (v["kind"], c["mode"]))
         rp = {"kind": "manifold", "case": {kk: vv for kk, vv in c.items() if kk != "scenario"}, "scenario": c["scenario"]}
         if cs is None or not cs["complete"] or len(cs["steps"]) != len(c["events"]) or any("err=ok" not in l for l in cs["config"]):
             run.mismatch("manifold", rp["case"], ((cs or {}).get("config", []) + (cs or {}).get("raw", []))[-3:], "complete run")
             continue
-        a0 = c["c0"] if kind == "v3" else _norm(c["c0"])
-        a1 = c["c1"] if kind == "v3" else _norm(c["c1"])
+        ends = []
+        for v in c["vars"]:
+            nrm = v["kind"] in ("uv", "q")
+            ends.append((_norm(v["c0"]) if nrm else v["c0"], _norm(v["c1"]) if nrm else v["c1"]))
         first = c["it0"]
         t = None
         N, nst = c["N"], c["nstages"]
+        W = 0.0
+        seen = set()
+        prev_c = None
+        okrun = True
         for (typ, pos), o in zip(c["events"], cs["steps"]):
             t = first if t is None else (t + 1 if typ == "S" else t)
             if o["it"] != t:
-                run.violation("protocol:step-number", "manifold scenario: module at step %d, engine at %d" % (o["it"], t), rp)
+                run.violation("protocol:step-number", "any-type scenario: module at step %d, engine at %d" % (o["it"], t), rp)
+                okrun = False
                 break
-            x = o["X"][0]
-            cen = o["C"][0]
-            # energy at the reported value and centre
-            E = 0.5 * c["k"] / (c["w"] * c["w"]) * man_dist2(kind, x, cen)
+            X, C, F = vecs(o, "X"), vecs(o, "C"), vecs(o, "F")
+            E = 0.0
+            for v, x, cen in zip(c["vars"], X, C):
+                E += 0.5 * c["k"] / (v["w"] * v["w"]) * gen_dist2(v, x, cen)
             if not close(E, o["E"], 1e-9) and abs(E - o["E"]) > 1e-12:
-                run.violation("potential:harmonic:%s:energy" % kind, "value %r centre %r: energy %r, k/(2 w^2) x geodesic distance^2 = %r" % (x, cen, o["E"], E), rp)
-            # schedule: centre = (normalised) interpolation at lambda(t)
+                run.violation("potential:harmonic:anytype:energy", "values %r centres %r: energy %r, sum of k/(2 w^2) x geodesic distance^2 = %r" % (X, C, o["E"], E), rp)
             if c["mode"] == "none":
-                lam = 0.0
+                lam = None
             elif c["mode"] == "cc":
                 lam = min(1.0, (t - first) / float(N))
             else:
                 nm = 0 if t <= first else min(nst + 1, (t - first - 1) // N + 1)
                 lam = None if nm == 0 else (nm - 1) / float(nst)
-            want = a0 if lam is None or c["mode"] == "none" else man_interp(kind, a0, a1, lam)
-            if not all(close(a, b, 1e-9) or abs(a - b) < 1e-12 for a, b in zip(want, cen)):
-                run.violation("schedule:centers:%s" % kind, "step %d (first %d, N %d, %s): centre %r, schedule prescribes %r" % (t, first, N, c["mode"], cen, want), rp)
-            # tie (energy at the interpolated centre; quaternion centres: only when they do not move)
-            lam_m = 0.0 if lam is None else lam
-            if kind != "q" or c["mode"] == "none" or lam_m == 0.0:
-                ml.append("MAN %s %s %s %s %s %s %s" % (kind, hx(c["k"]), hx(c["w"]), hx(lam_m if kind != "q" else 0.0),
-                                                     " ".join(hx(v) for v in a0), " ".join(hx(v) for v in a1), " ".join(hx(v) for v in x)))
-                where.append((k, t, o, rp))
+            want = [a if lam is None else gen_interp(v, a, b, lam) for v, (a, b) in zip(c["vars"], ends)]
+            for v, wv, cen in zip(c["vars"], want, C):
+                if not gen_same(v, wv, cen):
+                    run.violation("schedule:centers:%s" % v["kind"], "step %d (first %d, N %d, %s): centre %r, schedule prescribes %r" % (t, first, N, c["mode"], cen, wv), rp)
+            # work (vector-space types: increment = difference of consecutive scheduled centres, closest image if periodic)
+            if c["accw"] and all(v["kind"] in ("s", "p", "v3", "vl") for v in c["vars"]):
+                if t not in seen and t > first and t - first <= N:
+                    lam0 = min(1.0, (t - 1 - first) / float(N))
+                    for v, (a, b), f in zip(c["vars"], ends, F):
+                        cn, co = gen_interp(v, a, b, lam), gen_interp(v, a, b, lam0)
+                        inc = [x - y for x, y in zip(cn, co)]
+                        if v["kind"] == "p":
+                            inc = [float(shortest(Fr(cn[0]) - Fr(co[0]), Fr(v["P"])))]
+                        W += sum(x * y for x, y in zip(f, inc))
+                if not close(W, o["W"], 1e-9) and abs(W - o["W"]) > 1e-11:
+                    run.violation("work:centers:anytype", "step %d: accumulated work %r, sum of force . centre increment over the steps so far %r" % (t, o["W"], W), rp)
+            seen.add(t)
+        if not okrun:
+            continue
+        if c.get("uvwork"):
+            Es = [o["E"] for o in cs["steps"]]
+            Ws = [o["W"] for o in cs["steps"]]
+            if max(Es) - min(Es) < 1e-9 and abs(Ws[-1]) > 1e-6:
+                run.violation("work:centers:unit-vector", "centre moving (1,0,0)->(0,1,0) in 4 steps, value fixed at (0,0,1), k 1: the energy stays %r (no work is done on the variable) but the accumulated work is %r" % (Es[0], Ws), rp)
+            continue
+        # tie: the generic machine on the reported values
+        parts = ["GRUN", str(len(c["vars"]))]
+        for v in c["vars"]:
+            kind = v["kind"]
+            parts.append(kind)
+            if kind == "p":
+                parts += [hx(v["P"]), hx(v["wc"])]
+            if kind == "vl":
+                parts.append(str(DIM[kind]))
+            parts.append(hx(v["w"]))
+            parts += [hx(x) for x in v["c0"]] + [hx(x) for x in v["c1"]]
+        parts += [hx(c["k"]), "1" if c["mode"] != "none" else "0", str(c["N"] if c["mode"] != "none" else 0),
+                  str(c["nstages"] if c["mode"] == "cs" else 0), "1" if c["accw"] else "0", str(c["it0"]), str(len(c["events"]))]
+        for (typ, pos), o in zip(c["events"], cs["steps"]):
+            parts.append(typ)
+            for x in vecs(o, "X"):
+                parts += [hx(y) for y in x]
+        ml.append(" ".join(parts))
+        where.append((k, c, cs, rp))
         run.count("man%d" % k, c["mode"] != "none" or any(abs(o["E"]) > 1e-9 for o in cs["steps"]))
     rc, mout, e = V.run_lines(runner.model, ml)
-    for (k, t, o, rp), line in zip(where, mout):
-        parts = line.split(" ; ")
-        me = float.fromhex(parts[0])
-        if not close(me, o["E"], 1e-9) and abs(me - o["E"]) > 1e-12:
-            run.mismatch("manifold", {"case": rp["case"], "step": t}, o["E"], me)
-        if len(parts) > 1 and parts[1].strip() != "-":
-            mc = flist(parts[1].strip())
-            if not all(close(a, b, 1e-9) or abs(a - b) < 1e-12 for a, b in zip(mc, o["C"][0])):
-                run.mismatch("manifold", {"case": rp["case"], "step": t}, o["C"][0], mc)
     if len(mout) != len(where):
         run.mismatch("manifold", "model run", len(where), len(mout))
+    for (k, c, cs, rp), line in zip(where, mout):
+        recs = [parse_fields(part) for part in line.split(" ; ")]
+        if len(recs) != len(cs["steps"]):
+            run.mismatch("manifold", rp["case"], len(cs["steps"]), len(recs))
+            continue
+        for d_, o in zip(recs, cs["steps"]):
+            bad = None
+            me = float.fromhex(d_["E"])
+            eq = lambda a, b: close(a, b, 1e-9) or abs(a - b) < 1e-11
+            if int(d_["it"]) != o["it"]:
+                bad = "step %s vs %d" % (d_["it"], o["it"])
+            elif not eq(me, o["E"]):
+                bad = "E impl %r model %r" % (o["E"], me)
+            else:
+                mc, mf = vlist(d_["C"]), vlist(d_["F"])
+                for v, a, b in zip(c["vars"], mc, vecs(o, "C")):
+                    if not (gen_same(v, a, b) if v["kind"] == "p" else all(eq(x, y) for x, y in zip(a, b))):
+                        bad = "centres impl %r model %r" % (o["C"], mc)
+                for a, b in zip(mf, vecs(o, "F")):
+                    if len(a) != len(b) or not all(eq(x, y) for x, y in zip(a, b)):
+                        bad = bad or "forces impl %r model %r" % (o["F"], mf)
+                if c["mode"] != "none" and (int(d_["ST"]) != o["ST"] or int(d_["FS"]) != o["FS"]):
+                    bad = bad or "stage/first impl %d/%d model %s/%s" % (o["ST"], o["FS"], d_["ST"], d_["FS"])
+                if c["accw"] and not eq(float.fromhex(d_["W"]), o["W"]):
+                    bad = bad or "W impl %r model %r" % (o["W"], float.fromhex(d_["W"]))
+            if bad:
+                run.mismatch("manifold", {"case": rp["case"], "step": o["it"]}, bad, "agreement")
+                break
 
 
 def setup():
